@@ -267,3 +267,89 @@ Example C01_for_nonvacuous :
                         (fst (compile_for_real 0 (U "v") (Some (U "i")) (EVar (U "arr")) for_body)) 0 [] None UHost for_world)))
     = [U "v=10 i=0"; U "v=30 i=2"].
 Proof. vm_compute. repeat split. Qed.
+
+(* ------------------------------------------------------------------------------------------------------------------------
+   NESTED for loops (Proofs/C01forN.v).  Source trees [ustmt]: statement trees of the fragment above, sequencing, and
+   for loops whose body is again such a tree - for-in-for to any depth, statements before / after / between loops, `break` /
+   `continue` (outside any while) binding to the innermost enclosing for.  [annotate] gives every loop the names the parser gives
+   its three temporaries (label counter in source order); [compile_u] is the lowering; GExec is the structured reading (the rules
+   of FExec with the body an annotated tree; same definedness side conditions, per loop).
+
+   STILL MISSING, named: a `for` INSIDE an if branch or inside a while body (that needs `for` inside the statement trees of
+   Proofs/C01.v themselves); non-array loop values; array-shrinking bodies; [compile_u] = the parser's lowering is decided per
+   case inside Coq by the check (Model/RunC01for.v check_lowering_u), proved only for a single loop without `continue`
+   (C01_for_compile_is_the_parser_lowering). *)
+From BS Require Import Proofs.C01forN.
+
+Theorem C01_nested_for_simulation_partial : forall cfg, c_max cfg = 0%Z ->
+  forall lib url_rel lint_lines, lib_fuel_monotone lib -> lib_count_blind lib ->
+  arrayLength_contract lib -> arrayGet_contract lib ->
+  forall um n u loc w o loc' w',
+  GExec cfg lib url_rel lint_lines um (fst (annotate n u)) (loc, w) o (loc', w') ->
+  gwf false (fst (annotate n u)) = true -> gguard (fst (annotate n u)) = true ->
+  forall wm, weq w wm ->
+  exists out wm', scope_result o = Some out /\ weq w' wm' /\
+    Run cfg lib url_rel lint_lines um (compile_u n u) 0 loc wm (out, loc', wm').
+Proof. exact nested_for_simulation. Qed.
+Print Assumptions C01_nested_for_simulation_partial.
+
+(* all labels of the lowered code are defined once *)
+Theorem C01_nested_for_compiled_labels_unique : forall ctx n f, NoDup (labels (fst (gcompile real_lab real_labc ctx n f))).
+Proof. intros ctx n f. exact (gcompile_NoDup real_lab real_labc real_lab_inj' real_labc_inj real_labc_fresh ctx n f). Qed.
+Print Assumptions C01_nested_for_compiled_labels_unique.
+
+(* the single loop of C01_for_simulation_partial is the special case FFor .. (FS body): same code, and its reading is a GExec *)
+Theorem C01_nested_for_extends_single : forall cfg lib url_rel lint_lines um lab labc vals len idx x e b,
+  (forall ctx n, gcompile lab labc ctx n (FFor vals len idx x e (FS b)) = compile_for lab labc vals len idx x e b n) /\
+  (forall st o st', FExec cfg lib url_rel lint_lines um vals len idx x e b st o st' ->
+                    GExec cfg lib url_rel lint_lines um (FFor vals len idx x e (FS b)) st o st').
+Proof.
+  intros cfg lib url_rel lint_lines um lab labc vals len idx x e b.
+  split; [intros ctx n; exact (gcompile_single lab labc vals len idx x e b n ctx)|exact (FExec_GExec cfg lib url_rel lint_lines um vals len idx x e b)].
+Qed.
+Print Assumptions C01_nested_for_extends_single.
+
+Theorem C01_nested_for_structured_interpreter_sound : forall cfg lib url_rel lint_lines um fuel f st o st',
+  gexec cfg lib url_rel lint_lines um fuel f st = Some (o, st') -> GExec cfg lib url_rel lint_lines um f st o st'.
+Proof. exact gexec_sound. Qed.
+Print Assumptions C01_nested_for_structured_interpreter_sound.
+
+(* non-vacuity: for-in-for with continue and break of the inner loop, statements after the inner loop and after the outer loop *)
+Definition nest_text : str := U "for a in outer:
+    for b, j in inner:
+        if b == 2:
+            continue
+        endif
+        if a == 20:
+            break
+        endif
+        systemLog('a=' + a + ' b=' + b + ' j=' + j)
+    endfor
+    systemLog('end ' + a)
+endfor
+return 'done'
+".
+Definition nest_prog : ustmt :=
+  USeq (UFor (U "a") None (EVar (U "outer"))
+         (USeq (UFor (U "b") (Some (U "j")) (EVar (U "inner"))
+                  (US (TSeq (TIf (EBin (U "==") (EVar (U "b")) (ENum (NFlt (Z_to_sf 2)))) TContinue TSkip)
+                      (TSeq (TIf (EBin (U "==") (EVar (U "a")) (ENum (NFlt (Z_to_sf 20)))) TBreak TSkip)
+                            (TExpr (ECall (U "systemLog")
+                               [EBin (U "+") (EBin (U "+") (EBin (U "+") (EBin (U "+") (EBin (U "+") (EStr (U "a=")) (EVar (U "a"))) (EStr (U " b=")))
+                                     (EVar (U "b"))) (EStr (U " j="))) (EVar (U "j"))]))))))
+               (US (TExpr (ECall (U "systemLog") [EBin (U "+") (EStr (U "end ")) (EVar (U "a"))])))))
+       (US (TReturn (Some (EStr (U "done"))))).
+Definition nest_world : world :=
+  upd_arrs (world0 (inject_library [(U "outer", VArr 0); (U "inner", VArr 1)]))
+           [[VNum (NInt 10); VNum (NInt 20)]; [VNum (NInt 1); VNum (NInt 2); VNum (NInt 3)]].
+Definition nest_log : list str := [U "a=10 b=1 j=0"; U "a=10 b=3 j=2"; U "end 10"; U "end 20"].
+
+Example C01_nested_for_nonvacuous :
+  gwf false (fst (annotate 0 nest_prog)) = true /\ gguard (fst (annotate 0 nest_prog)) = true /\
+  check_lowering_u nest_text nest_prog = true /\
+  option_map (fun r => (fst r, rev (w_log (snd (snd r)))))
+    (gexec f7_cfg (libcore f7_cfg) Run.no_url Run.no_lint UHost 300 (fst (annotate 0 nest_prog)) (None, nest_world))
+    = Some (SStop (OVal (VStr (U "done"))), nest_log) /\
+  (let r := exec f7_cfg (libcore f7_cfg) Run.no_url Run.no_lint 600 (compile_u 0 nest_prog) 0 [] None UHost nest_world in
+   (fst (fst r), rev (w_log (snd r)))) = (OVal (VStr (U "done")), nest_log).
+Proof. vm_compute. repeat split. Qed.
